@@ -12,6 +12,17 @@ MC      MC_Xfr (Xfr.tla on itself): every AXFR / IXFR stream of the bounded univ
         holds every delivered envelope and the error when the channel closes (Handoff).
         Faults on signed transfers include hdrid: header ID rewritten after signing, original ID kept (MAC still
         verifies, the ID check must not).
+        Time (Xfr!Late, TimeoutTicks): every envelope has a gap, the time the receiver waits for it; ReadTimeout bounds
+        the wait for ONE envelope (fault "stall": a gap beyond it = the stream ended early, error), never the transfer:
+        variant "paced" = every envelope 2 ticks after the previous one under a timeout of 3 ticks is a clean transfer.
+        Names (Xfr!Spellings): the zone name spelled in another letter case in the query / in the owner names of the
+        answer (RFC 4343) -- variants of every fault-free behaviour on which nothing depends.
+        Serial rows 8-10: the server's serial wrapped to exactly 0 / the client's is 0 / both (the zero value of a
+        counter is a serial like any other).
+        Constant Focus: "base" = the faults without variants and stalls (the big quick universes, as before),
+        "variants" = fault-free behaviours x all variants + stall + nosoa (small: quick stage VARQ, serial rows 1, 8, 10),
+        "all" = both (thorough MC).  Quick: GEN stages VARQ (one shard of 4) and ZERO (the faults at serial 0, rows 8 and 10,
+        MaxRecs 1, no TSIG); thorough: VART (MaxRecs 2, rows 1, 2, 8, 9, 10) and ZEROT (MaxRecs 2, rows 8-10, TSIG on/off).
 GEN     Gen_Xfr (= MC_Xfr with EmitBehaviours, sharded, invariants on) exports every behaviour with the expected observation -> `xfr replay`: envelopes
         framed with the real Pack (+ real TsigGenerate chain) onto a scripted in-memory connection (closed or
         silent at the end; cut at 5 octet positions), real Transfer.In, channel drained: records per envelope,
@@ -21,10 +32,17 @@ GEN     Gen_Xfr (= MC_Xfr with EmitBehaviours, sharded, invariants on) exports e
         TXT in the additional section) to exactly 4095, 4096, 4097, 16383, 16384, 16385, 65534 and 65535 wire
         octets; envelopes after the first without question section / with two questions (RFC 5936 2.2.2), a third
         of the runs each; a sample run with ReadTimeout 40 ms and a consumer pausing 300 ms after its k-th envelope, every k.
+        Paced / stalled behaviours run on a virtual clock (timedConn in the harness: a Read that has to wait moves the
+        clock to the arrival of the frame or to the read deadline, whichever comes first; a tick is a minute, nothing
+        sleeps): ReadTimeout = TimeoutTicks ticks.  The query names the zone in the spelling sq, the answer's owner
+        names are spelled sa and must be delivered so.
 TV in   `xfr record in`: random transfers beyond the bounds (<= 40 records, <= 5 difference sequences, empty
-        envelopes, <= 2 faults) -> Trace_Xfr predicts the observation.
+        envelopes, <= 2 faults) -> Trace_Xfr predicts the observation.  One transfer in three on the virtual clock
+        (random gaps 0..2 ticks per envelope, stalls of 4 / 5 / 9 / 1000 ticks), random spellings of the zone name in
+        query and answer, one in twelve with a server / client serial of exactly 0.
 TV out  `xfr record out`: real dns.Server on an in-memory listener, handler = Transfer.Out, one to three requests
-        (signed / wrong secret / unsigned) back to back on every connection -> Trace_Xfr (wire =
+        (signed / wrong secret / unsigned; one in three with an EDNS0 OPT record, some with a cookie option, before the
+        TSIG) back to back on every connection -> Trace_Xfr (wire =
         chunks fed, IDs, complete exactly at the last envelope, every envelope signed for a verified request) and
         Trace_Tsig + `tsig judge` (every MAC = HMAC over the specification's digest input chained on the previous
         MAC, timers only from the 2nd envelope, every answer validated from scratch on the MAC of its own request;
@@ -71,6 +89,13 @@ Mutants (checks/mutants/C15, each must give exit 1):
   striptsig-assumes-one-question  (seeded change C15-14) GEN (error-on-clean-transfer with later-questions "none" / "two", TSIG on), TV in
   out-shared-tsig-stub            (seeded change C15-15) TV out (tsig judge: tsig/sign:stale-time-signed:server-out)
   length-prefix-single-read       (seeded change C15-9) GEN ("prefix" / "byte" segmentation of every behaviour), TV in
+  read-deadline-once              (seeded change C15-16: deadline armed once per transfer) GEN VARQ (error-on-clean-transfer:none:paced-sender), TV in
+  out-opt-after-tsig              (seeded change C15-19: OPT appended after the TSIG stub, envelopes leave unsigned) TV out (Trace_Xfr: fewer
+                                  signed envelopes than envelopes for a verified request; tsig judge)
+  ixfr-first-by-serial-zero       (seeded change C15-20: serial == 0 as "first message") GEN VARQ (error-on-clean-transfer:none:server-serial-0 /
+                                  records-differ), TV in
+  zone-soa-case-sensitive         (seeded change C15-21: SOA owner compared with the query name as Go strings) GEN VARQ
+                                  (error-on-clean-transfer:none:zone-name-case), TV in
   server-timersonly-not-reset     (seeded change C15-3) TV out (tsig judge: accepts-invalid:mac:server-out on the 2nd answer of a connection)
 """
 import os, json
@@ -84,6 +109,15 @@ SMALL = {"MaxRecs": 1, "SerialIds": "{2, 3, 4}", "TsigModes": "{FALSE, TRUE}", "
 EMPTQ = {"MaxRecs": 1, "SerialIds": "{1}", "TsigModes": "{FALSE, TRUE}", "Empties": "TRUE"}
 EMPT = {"MaxRecs": 1, "SerialIds": "{1, 3, 5, 7}", "TsigModes": "{FALSE, TRUE}", "Empties": "TRUE"}
 FULL = {"MaxRecs": 3, "SerialIds": "{1, 2, 3, 4, 5, 6, 7}", "TsigModes": "{FALSE, TRUE}", "Empties": "FALSE"}
+# fault-free behaviours in every variant (zone name spelled differently in query / answer, pacing sender), stalls, and the
+# serial cases with a serial of exactly 0 -- without the other faults this universe is small
+VARQ = {"MaxRecs": 1, "SerialIds": "{1, 8, 10}", "TsigModes": "{FALSE, TRUE}", "Empties": "FALSE", "Focus": '"variants"'}
+ZERO = {"MaxRecs": 1, "SerialIds": "{8, 10}", "TsigModes": "{FALSE}", "Empties": "FALSE", "Focus": '"base"'}
+# thorough: the same two universes, larger
+VART = {"MaxRecs": 2, "SerialIds": "{1, 2, 8, 9, 10}", "TsigModes": "{FALSE, TRUE}", "Empties": "FALSE", "Focus": '"variants"'}
+ZEROT = {"MaxRecs": 2, "SerialIds": "{8, 9, 10}", "TsigModes": "{FALSE, TRUE}", "Empties": "FALSE", "Focus": '"base"'}
+for _c in (QUICK, SMALL, EMPTQ, EMPT, FULL):
+    _c["Focus"] = '"base"'
 
 
 def mc(ctx, consts, workers=4):
@@ -140,13 +174,17 @@ def run(ctx):
             lambda: mc(ctx, SMALL),
             lambda: gen(ctx, binp, QUICK, 16, sh),
             lambda: gen(ctx, binp, EMPTQ, 4, [ctx.seed % 4]),
+            lambda: gen(ctx, binp, VARQ, 4, [ctx.seed % 4]),
+            lambda: gen(ctx, binp, ZERO, 2, [ctx.seed % 2]),
             lambda: tv_in(ctx, binp, 400, 2),
             lambda: tv_out(ctx, binp, tsigbin, 40, 1),
         ])
     else:
-        mc(ctx, QUICK, workers=8)
+        mc(ctx, dict(QUICK, Focus='"all"'), workers=8)
         gen(ctx, binp, FULL, 32, range(32))
         gen(ctx, binp, EMPT, 8, range(8))
+        gen(ctx, binp, VART, 8, range(8))
+        gen(ctx, binp, ZEROT, 8, range(8))
         tv_in(ctx, binp, 3000, 12)
         tv_out(ctx, binp, tsigbin, 300, 4)
     ctx.assumptions += [
